@@ -210,9 +210,32 @@ def getattr_lib(M, interp, obj, name, node):
     if isinstance(obj, ParamVal):
         if hasattr(obj, name):
             return getattr(obj, name)
+    if isinstance(obj, ExcType):
+        if name in ('__name__', '__qualname__'):
+            return obj.tname
+        raise AnalysisError(f'attribute {name} of exception class {obj.tname} not modelled', node)
     if isinstance(obj, ExcVal):
         if name == 'args':
             return obj.args
+        if name in getattr(obj, 'attrs', {}):
+            return obj.attrs[name]
+        cls = getattr(obj, 'cls', None)
+        if cls is not None:
+            try:
+                v = cls.lookup(name)
+            except KeyError:
+                v = None
+            if isinstance(v, FuncVal):
+                return interp.call_function(v, [obj], {}, node) if v.is_property else BoundMethod(obj, v)
+            if v is not None:
+                return v
+        if name == '__class__':
+            return cls if cls is not None else ExcType(obj.tname)
+        if name in ('__cause__', '__context__', '__traceback__', 'with_traceback', 'add_note', '__notes__'):
+            raise AnalysisError(f'exception attribute {name} not modelled', node)
+        if name in ('errno', 'strerror', 'filename', 'code', 'msg', 'name', 'path', 'obj', 'value', 'reason'):
+            raise AnalysisError(f'exception attribute {name} of a built-in exception not modelled', node)
+        raise AbsRaise(ExcVal('AttributeError', (f"'{obj.tname}' object has no attribute '{name}'",)), node)
     if isinstance(obj, PathVal):
         if name in ('open', 'exists', 'is_file', 'read_text'):
             return ModelMethod(obj, name)
@@ -492,12 +515,8 @@ def register(M):
                 return obj[args[0]] if args[0] in obj else (args[1] if len(args) > 1 else kw.get('default'))
             except TypeError:
                 raise AbsRaise(ExcVal('TypeError', ('unhashable',)), node)
-        if isinstance(obj, dict) and name == 'items':
-            return list(obj.items())
-        if isinstance(obj, dict) and name == 'keys':
-            return list(obj.keys())
-        if isinstance(obj, dict) and name == 'values':
-            return list(obj.values())
+        if isinstance(obj, dict) and name in ('items', 'keys', 'values'):
+            return getattr(obj, name)()         # a live view, as in Python (what is added to the dict later shows through it)
         if isinstance(obj, dict) and name == 'pop':
             if args[0] in obj:
                 return obj.pop(args[0])
